@@ -201,4 +201,82 @@ def getParam (opts : List Opt) (r : Result) (name : Str) (inst idx : Nat) : Opti
       | none => none
     else none
 
+/-! ### one handle, several parses
+
+`parsec_cmd_line_t` keeps the option list and the results of the last parse.  The fields are
+modelled one by one; `parsec_cmd_line_parse` first runs `free_parse_results`, then fills them. -/
+
+structure Handle where
+  opts : List Opt          -- lcl_options
+  argc : Int               -- lcl_argc
+  argv : Vec               -- lcl_argv
+  params : List Param      -- lcl_params
+  tailc : Int              -- lcl_tail_argc
+  tail : Vec               -- lcl_tail_argv
+deriving Repr, DecidableEq
+
+/-- `cmd_line_constructor` -/
+def Handle.new : Handle := ⟨[], 0, none, [], 0, none⟩
+
+/-- `parsec_cmd_line_make_opt3` on a handle -/
+def Handle.addOpt (h : Handle) (e : Opt) : Int × Handle :=
+  ((makeOpt h.opts e).1, { h with opts := (makeOpt h.opts e).2 })
+
+/-- `free_parse_results`: pop and release every param, free and NULL both vectors, zero both counts -/
+def freeParseResults (h : Handle) : Handle :=
+  { h with params := [], argv := none, argc := 0, tail := none, tailc := 0 }
+
+/-- the tail is built with `parsec_argv_append(&lcl_tail_argc, &lcl_tail_argv, tok)` per token:
+    onto whatever the handle holds; the count is only written by an append -/
+def appendTail (tailc : Int) (tail : Vec) : List Str → Int × Vec
+  | [] => (tailc, tail)
+  | t :: ts => appendTail (append tail t).1 (append tail t).2 ts
+
+/-- `parsec_cmd_line_parse(cmd, ign, argc, argv)` on an existing handle (`argc = count(argv)`).
+    `argc == 0`: nothing is touched.  Otherwise the previous results are freed, `lcl_argc/argv`
+    are set from the arguments, and the loop appends to the handle's params list and tail. -/
+def Handle.parse (h : Handle) (ign : Bool) (argv : List Str) : Int × Handle :=
+  match argv with
+  | [] => (SUCCESS, h)
+  | prog :: rest =>
+    ((parseLoop true (freeParseResults h).opts ign (fuelFor rest) [prog] rest (freeParseResults h).params).rc,
+     { freeParseResults h with
+        argc := (parseLoop true (freeParseResults h).opts ign (fuelFor rest) [prog] rest (freeParseResults h).params).argv.length,
+        argv := some (parseLoop true (freeParseResults h).opts ign (fuelFor rest) [prog] rest (freeParseResults h).params).argv,
+        params := (parseLoop true (freeParseResults h).opts ign (fuelFor rest) [prog] rest (freeParseResults h).params).params,
+        tailc := (appendTail (freeParseResults h).tailc (freeParseResults h).tail
+                   (parseLoop true (freeParseResults h).opts ign (fuelFor rest) [prog] rest (freeParseResults h).params).tail).1,
+        tail := (appendTail (freeParseResults h).tailc (freeParseResults h).tail
+                   (parseLoop true (freeParseResults h).opts ign (fuelFor rest) [prog] rest (freeParseResults h).params).tail).2 })
+
+/-- what a handle holds after parsing `argv` with nothing before: the fields as functions of the
+    `Result` of that single parse -/
+def Handle.ofResult (opts : List Opt) (r : Result) : Handle :=
+  { opts := opts, argc := r.argv.length, argv := some r.argv, params := r.params,
+    tailc := r.tail.length, tail := ofList r.tail }
+
+/-- `parsec_cmd_line_get_ninsts` on a handle -/
+def Handle.ninsts (h : Handle) (name : Str) : Nat :=
+  match find h.opts name with
+  | none => 0
+  | some (k, _) => (h.params.filter (fun p => p.1 == k)).length
+
+/-- `parsec_cmd_line_get_param` on a handle -/
+def Handle.getParam (h : Handle) (name : Str) (inst idx : Nat) : Option Str :=
+  match find h.opts name with
+  | none => none
+  | some (k, o) =>
+    if (idx : Int) < o.nparams then
+      match (h.params.filter (fun p => p.1 == k))[inst]? with
+      | some p => p.2[idx]?
+      | none => none
+    else none
+
+/-- `parsec_cmd_line_get_argv(cmd, index)`: NULL outside `[0, lcl_argc)` -/
+def Handle.getArgv (h : Handle) (index : Int) : Option Str :=
+  if index ≥ h.argc ∨ index < 0 then none else (h.argv.getD [])[index.toNat]?
+
+/-- `parsec_cmd_line_get_tail`: the count and a copy of the vector -/
+def Handle.getTail (h : Handle) : Int × Vec := (h.tailc, copy h.tail)
+
 end ParsecVerif.CmdLine
